@@ -1176,15 +1176,182 @@ package decimal
 //@ func putDec(x *dec)
 //@   status assumed sync.Pool
 
+// decKaratsubaAdd/Sub: z[0:n+n/2] += / -= x[0:n] for a result that fits (no carry/borrow out).
+//@ func decKaratsubaAdd(z, x dec, n int)
+//@   requires[len]     0 <= n && n <= 1099511627775 && n + n/2 <= len(z) && n <= len(x)
+//@   requires[words]   wordsok(z[:n + n/2]) && wordsok(x[:n])
+//@   requires[apart]   z.arr != x.arr || x.off + n <= z.off || z.off + n + n/2 <= x.off
+//@   requires[fits]    V(z[:n + n/2]) + V(x[:n]) < P(n + n/2)
+//@   modifies mem(z[:n + n/2])
+//@   ensures[words,C06] wordsok(z[:n + n/2])
+//@   ensures[value,C06] V(z[:n + n/2]) == old(V(z[:n + n/2])) + old(V(x[:n]))
+//@   nomerge
+//@   hint[entry] V_split(z, 0, n, n + n/2)
+//@   hint[entry] V_nonneg(z, n, n + n/2)
+//@   hint[entry] V_nonneg(z, 0, n)
+//@   hint[entry] P_add(n, n/2)
+//@   hint[after:add10VV#1] V_split(z, 0, n, n + n/2)
+//@   hint[after:add10VV#1] V_nonneg(z, 0, n)
+//@   hint[after:add10VV#1] V_bounds(z, n, n + n/2)
+//@   hint[after:add10VV#1] mul_eq(P(n + n/2), P(n)*P(n/2), result)
+//@   hint[after:add10VV#1] mul_mono(V(z[n:n + n/2]) + 1, P(n/2), P(n))
+//@   hint[after:add10VW#1] V_split(z, 0, n, n + n/2)
+//@   hint[after:add10VW#1] V_nonneg(z, 0, n + n/2)
+//@   hint[after:add10VW#1] mul_eq(V(z[n:n + n/2]) + result*P(n/2), pre(V(z[n:n + n/2])) + 1, P(n))
+//@   hint[after:add10VW#1] mul_eq(P(n + n/2), P(n)*P(n/2), result)
+//@   hint[after:add10VW#1] result >= 1 ==> mul_mono(1, result, P(n + n/2))
+
+//@ func decKaratsubaSub(z, x dec, n int)
+//@   requires[len]     0 <= n && n <= 1099511627775 && n + n/2 <= len(z) && n <= len(x)
+//@   requires[words]   wordsok(z[:n + n/2]) && wordsok(x[:n])
+//@   requires[apart]   z.arr != x.arr || x.off + n <= z.off || z.off + n + n/2 <= x.off
+//@   requires[fits]    V(z[:n + n/2]) >= V(x[:n])
+//@   modifies mem(z[:n + n/2])
+//@   ensures[words,C06] wordsok(z[:n + n/2])
+//@   ensures[value,C06] V(z[:n + n/2]) + old(V(x[:n])) == old(V(z[:n + n/2]))
+//@   nomerge
+//@   hint[entry] V_split(z, 0, n, n + n/2)
+//@   hint[entry] V_nonneg(z, n, n + n/2)
+//@   hint[entry] V_bounds(z, 0, n)
+//@   hint[entry] V_bounds(x, 0, n)
+//@   hint[entry] P_add(n, n/2)
+//@   hint[after:sub10VV#1] V_split(z, 0, n, n + n/2)
+//@   hint[after:sub10VV#1] V_nonneg(z, 0, n)
+//@   hint[after:sub10VV#1] V_bounds(z, 0, n)
+//@   hint[after:sub10VV#1] V_nonneg(z, n, n + n/2)
+//@   hint[after:sub10VV#1] mul_eq(P(n + n/2), P(n)*P(n/2), result)
+//@   hint[after:sub10VV#1] result >= 1 && V(z[n:n + n/2]) == 0 ==> mul_eq(V(z[n:n + n/2]), 0, P(n))
+//@   hint[after:sub10VW#1] V_split(z, 0, n, n + n/2)
+//@   hint[after:sub10VW#1] V_nonneg(z, n, n + n/2)
+//@   hint[after:sub10VW#1] mul_eq(V(z[n:n + n/2]) + 1, pre(V(z[n:n + n/2])) + result*P(n/2), P(n))
+//@   hint[after:sub10VW#1] mul_eq(P(n + n/2), P(n)*P(n/2), result)
+//@   hint[after:sub10VW#1] V_bounds(z, 0, n)
+//@   hint[after:sub10VW#1] V_bounds(z, n, n + n/2)
+
 //@ func decKaratsuba(z, x, y dec)
-//@   requires[len]   len(x) == len(y) && len(x) >= 1 && len(z) >= 6*len(x)
+//@   requires[len]   len(x) == len(y) && len(x) >= 1 && len(z) >= 6*len(x) && len(x) <= 100000000
 //@   requires[words] wordsok(x) && wordsok(y)
-//@   requires[apart] z.arr != x.arr && z.arr != y.arr
+//@   requires[apart] apart_rng(z, 6*len(x), x) && apart_rng(z, 6*len(x), y)
 //@   modifies mem(z[:6*len(x)])
 //@   ensures[words,C06] wordsok(z[:2*len(x)])
 //@   ensures[value,C06] V(z[:2*len(x)]) == V(x)*V(y)
 //@   ensures[operands,C09] samewords(x, old(x)) && samewords(y, old(y))
-//@   status assumed bounded: bounded/c06_test.go (recursive Karatsuba with in-place scratch layout)
+//@   nomerge
+//@   hint[entry] V_split(x, 0, len(x)/2, len(x))
+//@   hint[entry] V_split(y, 0, len(y)/2, len(y))
+//@   hint[entry] V_bounds(x, 0, len(x)/2)
+//@   hint[entry] V_bounds(x, len(x)/2, len(x))
+//@   hint[entry] V_bounds(y, 0, len(y)/2)
+//@   hint[entry] V_bounds(y, len(y)/2, len(y))
+//@   hint[entry] V_nonneg(x, 0, len(x)/2)
+//@   hint[entry] V_nonneg(x, len(x)/2, len(x))
+//@   hint[entry] V_nonneg(y, 0, len(y)/2)
+//@   hint[entry] V_nonneg(y, len(y)/2, len(y))
+//@   hint[after:decKaratsuba#1] assert(n == 2*n2 && n2 >= 1)
+//@   hint[after:decKaratsuba#1] assert(V(z[:n]) == V(x0)*V(y0))
+//@   hint[after:decKaratsuba#2] assert(V(z[n:2*n]) == V(x1)*V(y1) && V(z[:n]) == V(x0)*V(y0))
+//@   hint[after:sub10VV#1] V_bounds(xd, 0, n2)
+//@   hint[after:sub10VV#2] V_bounds(xd, 0, n2)
+//@   hint[after:sub10VV#2] result >= 1 ==> mul_mono(1, result, P(n2))
+//@   hint[after:sub10VV#2] assert(result == 0)
+//@   hint[after:sub10VV#2] mul_eq(result, 0, P(n2))
+//@   hint[after:sub10VV#3] V_bounds(yd, 0, n2)
+//@   hint[after:sub10VV#4] V_bounds(yd, 0, n2)
+//@   hint[after:sub10VV#4] result >= 1 ==> mul_mono(1, result, P(n2))
+//@   hint[after:sub10VV#4] assert(result == 0)
+//@   hint[after:sub10VV#4] mul_eq(result, 0, P(n2))
+//@   hint[after:decKaratsuba#3] assert(V(p[:n]) == V(xd)*V(yd) && V(z[n:2*n]) == V(x1)*V(y1) && V(z[:n]) == V(x0)*V(y0))
+//@   hint[after:copy#1] V_eq(r, z, 0, n)
+//@   hint[after:copy#1] V_eq(r, z, n, 2*n)
+//@   hint[after:copy#1] V_split(z, 0, n, 2*n)
+//@   hint[after:copy#1] V_split(z, 0, n2, 2*n)
+//@   hint[after:copy#1] V_nonneg(z, 0, n2)
+//@   hint[after:copy#1] V_bounds(z, 0, n2)
+//@   hint[after:copy#1] P_add(n2, n2)
+//@   hint[after:copy#1] P_add(n, n2)
+//@   hint[after:copy#1] P_mono(0, n2)
+//@   hint[after:copy#1] V_bounds(x0, 0, n2)
+//@   hint[after:copy#1] V_bounds(x1, 0, n2)
+//@   hint[after:copy#1] V_bounds(y0, 0, n2)
+//@   hint[after:copy#1] V_bounds(y1, 0, n2)
+//@   hint[after:copy#1] V_bounds(xd, 0, n2)
+//@   hint[after:copy#1] V_bounds(yd, 0, n2)
+//@   hint[after:copy#1] V_nonneg(x0, 0, n2)
+//@   hint[after:copy#1] V_nonneg(x1, 0, n2)
+//@   hint[after:copy#1] V_nonneg(y0, 0, n2)
+//@   hint[after:copy#1] V_nonneg(y1, 0, n2)
+//@   hint[after:copy#1] V_nonneg(xd, 0, n2)
+//@   hint[after:copy#1] V_nonneg(yd, 0, n2)
+//@   hint[after:copy#1] mul_mono(V(x0), P(n2) - 1, V(y0))
+//@   hint[after:copy#1] mul_mono(V(y0), P(n2) - 1, P(n2) - 1)
+//@   hint[after:copy#1] mul_mono(V(x1), P(n2) - 1, V(y1))
+//@   hint[after:copy#1] mul_mono(V(y1), P(n2) - 1, P(n2) - 1)
+//@   hint[after:copy#1] mul_mono(V(xd), P(n2) - 1, V(yd))
+//@   hint[after:copy#1] mul_mono(V(yd), P(n2) - 1, P(n2) - 1)
+//@   hint[after:copy#1] mul_mono(0, V(x0), V(y0))
+//@   hint[after:copy#1] mul_mono(0, V(x1), V(y1))
+//@   hint[after:copy#1] mul_mono(0, V(xd), V(yd))
+//@   hint[after:copy#1] mul_mono(1, P(n2), P(n2))
+//@   hint[after:copy#1] mul_mono(V(x0)*V(y0), (P(n2) - 1)*(P(n2) - 1), P(n2))
+//@   hint[after:copy#1] mul_mono(V(x1)*V(y1), (P(n2) - 1)*(P(n2) - 1), P(n2))
+//@   hint[after:copy#1] mul_mono(V(x1)*V(y1), (P(n2) - 1)*(P(n2) - 1), P(n2)*P(n2))
+//@   hint[after:copy#1] mul_mono(V(xd)*V(yd), (P(n2) - 1)*(P(n2) - 1), P(n2))
+//@   hint[after:copy#1] mul_eq(P(n), P(n2)*P(n2), V(z[n:2*n]))
+//@   hint[after:copy#1] mul_eq(P(n + n2), P(n2)*P(n2)*P(n2), 1)
+//@   hint[after:copy#1] V(xd) == V(x1) - V(x0) ==> mul_eq(V(xd), V(x1) - V(x0), V(yd))
+//@   hint[after:copy#1] V(xd) == V(x0) - V(x1) ==> mul_eq(V(xd), V(x0) - V(x1), V(yd))
+//@   hint[after:copy#1] V(yd) == V(y0) - V(y1) ==> mul_eq(V(yd), V(y0) - V(y1), V(x1) - V(x0))
+//@   hint[after:copy#1] V(yd) == V(y1) - V(y0) ==> mul_eq(V(yd), V(y1) - V(y0), V(x1) - V(x0))
+//@   hint[after:copy#1] V(xd) == V(x1) - V(x0) ==> assert(V(xd)*V(yd) == (V(x1) - V(x0))*V(yd))
+//@   hint[after:copy#1] V(xd) == V(x0) - V(x1) ==> assert(V(xd)*V(yd) + (V(x1) - V(x0))*V(yd) == 0)
+//@   hint[after:copy#1] V(yd) == V(y0) - V(y1) ==> assert((V(x1) - V(x0))*V(yd) == (V(x1) - V(x0))*(V(y0) - V(y1)))
+//@   hint[after:copy#1] V(yd) == V(y1) - V(y0) ==> assert((V(x1) - V(x0))*V(yd) + (V(x1) - V(x0))*(V(y0) - V(y1)) == 0)
+//@   hint[after:copy#1] assert(V(xd)*V(yd) == s*((V(x1) - V(x0))*(V(y0) - V(y1))))
+//@   hint[after:copy#1] mul_eq(V(xd)*V(yd), s*((V(x1) - V(x0))*(V(y0) - V(y1))), P(n2))
+//@   hint[after:copy#1] mul_eq(V(x), V(x0) + P(n2)*V(x1), V(y))
+//@   hint[after:copy#1] mul_eq(V(y), V(y0) + P(n2)*V(y1), V(x0) + P(n2)*V(x1))
+//@   hint[after:copy#1] assert(V(z[:n]) == V(x0)*V(y0) && V(z[n:2*n]) == V(x1)*V(y1))
+//@   hint[after:copy#1] assert(P(n) == P(n2)*P(n2))
+//@   hint[after:copy#1] assert(V(z[:2*n]) == V(z[:n]) + P(n)*V(z[n:2*n]))
+//@   hint[after:copy#1] mul_eq(V(z[n:2*n]), V(x1)*V(y1), P(n2)*P(n2))
+//@   hint[after:copy#1] assert(V(x)*V(y) == V(x0)*V(y0) + P(n2)*(V(x0)*V(y1)) + P(n2)*(V(x1)*V(y0)) + P(n2)*P(n2)*(V(x1)*V(y1)))
+//@   hint[after:copy#1] assert(V(z[:2*n]) == V(x0)*V(y0) + P(n2)*P(n2)*(V(x1)*V(y1)))
+//@   hint[after:copy#1] assert(V(z[:2*n]) == V(z[:n2]) + P(n2)*V(z[n2:2*n]))
+//@   hint[after:copy#1] assert(V(r[:n]) == V(x0)*V(y0) && V(r[n:2*n]) == V(x1)*V(y1) && V(p[:n]) == V(xd)*V(yd))
+//@   hint[after:copy#1] assert(V(x0)*V(y0) + P(n2)*(V(x0)*V(y0)) + P(n2)*(V(x1)*V(y1)) + P(n2)*P(n2)*(V(x1)*V(y1)) < P(n2)*P(n2)*P(n2)*P(n2))
+//@   hint[after:copy#1] mul_eq(P(n), P(n2)*P(n2), P(n2))
+//@   hint[after:copy#1] mul_eq(P(n + n2), P(n2)*P(n2)*P(n2), P(n2))
+//@   hint[after:copy#1] mul_eq(V(r[:n]), V(x0)*V(y0), P(n2))
+//@   hint[after:copy#1] mul_eq(V(r[n:2*n]), V(x1)*V(y1), P(n2))
+//@   hint[after:copy#1] mul_eq(V(p[:n]), V(xd)*V(yd), P(n2))
+//@   hint[after:copy#1] mul_mono(0, V(x0)*V(y0), P(n2))
+//@   hint[after:copy#1] mul_mono(0, V(x1)*V(y1), P(n2))
+//@   hint[after:copy#1] mul_mono(0, V(x1)*V(y1), P(n2)*P(n2))
+//@   hint[after:copy#1] mul_mono(0, V(xd)*V(yd), P(n2))
+//@   hint[after:copy#1] V(z[n2:2*n]) + V(r[:n]) >= P(n + n2) ==> mul_mono(P(n + n2), V(z[n2:2*n]) + V(r[:n]), P(n2))
+//@   hint[after:decKaratsubaAdd#1] V_split(z, 0, n2, 2*n)
+//@   hint[after:decKaratsubaAdd#1] mul_eq(V(z[n2:2*n]), pre(V(z[n2:2*n])) + V(r[:n]), P(n2))
+//@   hint[after:decKaratsubaAdd#1] V(z[n2:2*n]) + V(r[n:2*n]) >= P(n + n2) ==> mul_mono(P(n + n2), V(z[n2:2*n]) + V(r[n:2*n]), P(n2))
+//@   hint[after:decKaratsubaAdd#2] V_split(z, 0, n2, 2*n)
+//@   hint[after:decKaratsubaAdd#2] mul_eq(V(z[n2:2*n]), pre(V(z[n2:2*n])) + V(r[n:2*n]), P(n2))
+//@   hint[after:decKaratsubaAdd#2] assert(V(z[:2*n]) == V(x0)*V(y0) + P(n2)*(V(x0)*V(y0)) + P(n2)*(V(x1)*V(y1)) + P(n2)*P(n2)*(V(x1)*V(y1)))
+//@   hint[after:decKaratsubaAdd#2] V_bounds(x, 0, n)
+//@   hint[after:decKaratsubaAdd#2] V_bounds(y, 0, n)
+//@   hint[after:decKaratsubaAdd#2] V_nonneg(x, 0, n)
+//@   hint[after:decKaratsubaAdd#2] V_nonneg(y, 0, n)
+//@   hint[after:decKaratsubaAdd#2] mul_mono(0, V(x), V(y))
+//@   hint[after:decKaratsubaAdd#2] mul_eq(P(n), P(n2)*P(n2), P(n2)*P(n2))
+//@   hint[after:decKaratsubaAdd#2] mul_mono(V(x) + 1, P(n), V(y))
+//@   hint[after:decKaratsubaAdd#2] mul_mono(V(y) + 1, P(n), P(n))
+//@   hint[after:decKaratsubaAdd#2] mul_eq(P(n), P(n2)*P(n2), P(n))
+//@   hint[after:decKaratsubaAdd#2] assert(V(x)*V(y) < P(n2)*P(n2)*P(n2)*P(n2) && V(x)*V(y) >= 0)
+//@   hint[after:decKaratsubaAdd#2] assert(V(x0)*V(y0) + P(n2)*(V(x0)*V(y0)) + P(n2)*(V(x1)*V(y1)) + P(n2)*P(n2)*(V(x1)*V(y1)) + s*(P(n2)*(V(xd)*V(yd))) == V(x)*V(y))
+//@   hint[after:decKaratsubaAdd#2] V(z[n2:2*n]) + V(p[:n]) >= P(n + n2) ==> mul_mono(P(n + n2), V(z[n2:2*n]) + V(p[:n]), P(n2))
+//@   hint[after:decKaratsubaAdd#2] V(z[n2:2*n]) < V(p[:n]) ==> mul_mono(V(z[n2:2*n]) + 1, V(p[:n]), P(n2))
+//@   hint[after:decKaratsubaAdd#3] V_split(z, 0, n2, 2*n)
+//@   hint[after:decKaratsubaAdd#3] mul_eq(V(z[n2:2*n]), pre(V(z[n2:2*n])) + V(p[:n]), P(n2))
+//@   hint[after:decKaratsubaSub#1] V_split(z, 0, n2, 2*n)
+//@   hint[after:decKaratsubaSub#1] mul_eq(V(z[n2:2*n]) + V(p[:n]), pre(V(z[n2:2*n])), P(n2))
 
 // dec.mul: the dispatch (operand swap, one-word factor, schoolbook product below the
 // threshold) and the composition of the product from Karatsuba-sized pieces are verified;
@@ -1370,10 +1537,11 @@ package decimal
 
 // Schoolbook multiplication: the building block below the Karatsuba threshold (and of every
 // Karatsuba leaf).  z[0:m+n] = x*y for x of m and y of n words.
+//@ define apart_rng(z, lz, x) = z.arr != x.arr || x.off + len(x) <= z.off || z.off + lz <= x.off
 //@ func decBasicMul(z, x, y dec)
 //@   requires[len]     len(z) >= len(x) + len(y) && len(x) <= 1099511627775 && len(y) <= 1099511627775
 //@   requires[words]   wordsok(x) && wordsok(y)
-//@   requires[apart]   z.arr != x.arr && z.arr != y.arr
+//@   requires[apart]   apart_rng(z, len(x) + len(y), x) && apart_rng(z, len(x) + len(y), y)
 //@   modifies mem(z[:len(x)+len(y)])
 //@   ensures[words,C06,C08] wordsok(z[:len(x)+len(y)])
 //@   ensures[value,C06,C01] V(z[:len(x)+len(y)]) == V(x)*V(y)
